@@ -35,7 +35,7 @@ def _run_parallel(cmds, timeout):
         rcs.append(rc)
     return rcs
 
-def evaluate(tag, lines, bindir, shards=16, timeout=1800, want_model=True, want_check=True, obs_bin='obs'):
+def evaluate(prop, tag, lines, bindir, shards=16, timeout=1800, want_model=True, want_check=True, obs_bin='obs'):
     """lines: case lines (with ids).  Returns (impl, model, verdict) dicts keyed by case id.
     impl[id] = kvs; a case whose process died without output gets {'ABORT': '1'}."""
     d = os.path.join(RUN, tag)
@@ -95,7 +95,7 @@ def evaluate(tag, lines, bindir, shards=16, timeout=1800, want_model=True, want_
                     cid = l.split(' ', 1)[0]
                     kvs = impl.get(cid, {})
                     f.write(cid + ' ' + ' '.join('%s=%s' % kv for kv in kvs.items()) + '\n')
-            cmds.append(([build.DRIVER, 'check', os.path.join(d, 'cases.%d' % i), io], os.path.join(d, 'verdict.%d' % i)))
+            cmds.append(([build.DRIVER, 'check', prop, os.path.join(d, 'cases.%d' % i), io], os.path.join(d, 'verdict.%d' % i)))
         _run_parallel(cmds, timeout)
         for i, part in enumerate(parts):
             with open(os.path.join(d, 'verdict.%d' % i), errors='replace') as f:
